@@ -516,6 +516,11 @@ class C2Http:
         keys = keys or self.beacon_keys
 
         transform = self.get_transform_for_http(http)
+        if isinstance(http, HttpRequest):
+            # data placed with `uri-append` follows the configured URI, only hand that part to the transform
+            uris = self.get_uris if transform is self.transform_get else (self.submit_uri,)
+            base_uri = max((uri for uri in uris if http.uri.startswith(uri)), key=len, default=b"")
+            http = http._replace(uri=http.uri[len(base_uri) :])
         c2data = transform.recover(http)
 
         # decrypt c2data.metadata, if available and we have a private key
